@@ -12,6 +12,10 @@ PID = "C57"
 PATIENCE = 16       # cycles the host waits for an answer to start (full-speed bus turnaround time-out at 12 MHz)
 NAK_LIMIT = 6       # consecutive NAKs a control stage may take before it counts as "not answered"
 VID, PIDN = 0x16d0, 0x0f3b
+# True: a request that must be STALLed is STALLed at its first answering opportunity, including a data packet of an OUT data stage
+# (USB 2.0 8.5.3.4; the reading under which the unchanged code fails).  False: the weaker reading C10 takes -- such data packets may
+# be left unanswered and the STALL comes at the status stage.
+STRICT_OUT_STALL = os.environ.get("C57_STRICT_OUT_STALL", "1") != "0"     # default True; the environment variable is for triage
 
 ASSUMPTIONS = [
     "the host performs complete, well-formed transfers (what props/C20_host.py generates): one control transfer at a time, data and status stages "
@@ -21,6 +25,9 @@ ASSUMPTIONS = [
     "the expected descriptors are those of USBSerialDevice.create_descriptors() in /repo (so a wrong descriptor *content* in acm.py is not "
     "detectable here; a wrong ROM, offset, length or framing is); control endpoint max packet size 64",
     f"'answered' = the answer starts within {PATIENCE} cycles and a control stage is NAKed at most {NAK_LIMIT} times in a row",
+    "STRICT_OUT_STALL = True (props/C57.py; environment C57_STRICT_OUT_STALL=0 overrides for triage): 'STALLed' includes the data packets of an OUT data stage (USB 2.0 8.5.3.4); setting it to False selects "
+    "the weaker reading C10 takes (those packets may be left unanswered, the STALL is owed at the status stage) -- the unchanged code satisfies the "
+    "weaker reading of this clause",
     "requests the statement says nothing about (standard requests other than GET_DESCRIPTOR / SET_ADDRESS / SET_CONFIGURATION / "
     "GET_CONFIGURATION / GET_STATUS, SET_LINE_CODING with the direction bit set) are generated but not judged",
     "safety only for the byte streams: order, no loss in the middle, no duplication, nothing from refused packets; that the last bytes are "
@@ -123,7 +130,8 @@ def descriptor_table(mps):
 
 def coq_params(mps):
     tab = "[" + "; ".join(f"({k}, [" + "; ".join(str(b) for b in v) + "])" for k, v in descriptor_table(mps)) + "]"
-    return f"{{| sp_mps := {mps}; sp_desc := {tab}; sp_T := {PATIENCE}; sp_naks := {NAK_LIMIT} |}}"
+    strict = "true" if STRICT_OUT_STALL else "false"
+    return f"{{| sp_mps := {mps}; sp_desc := {tab}; sp_T := {PATIENCE}; sp_naks := {NAK_LIMIT}; sp_strict := {strict} |}}"
 
 
 # ---- traces ----------------------------------------------------------------------------------------------------
@@ -288,6 +296,7 @@ def serial_traces(t, rng, tier):
         sub = random.Random(rng.getrandbits(32))
         prod = StreamProducer(sub)
         h = HostSim(t.build, sub, const=dict(line_state=1, connect=1), timeout=PATIENCE + 8, gap=3, in_stream=prod)
+        h.status_after_silence = not STRICT_OUT_STALL
         h.run(scenario(prod, mps))
         out.append(h.trace)
     for k in range(n):
@@ -296,6 +305,7 @@ def serial_traces(t, rng, tier):
         h = HostSim(t.build, sub, const=dict(line_state=1, connect=1),
                     ready_p=sub.choice([1.0, 1.0, 0.6, 0.3]), first_valid=(k % 4 == 1), byte_gap=sub.choice([0, 0, 1, (0, 3)]),
                     timeout=PATIENCE + 8, gap=sub.choice([2, 3, 6]), in_stream=prod, out_ready_p=sub.choice([1.0, 0.5, 0.05]))
+        h.status_after_silence = not STRICT_OUT_STALL
         h.run(serial_script(sub, mps, prod, "enum" if k % 2 == 0 else "mixed", tab))
         out.append(h.trace)
     return out
@@ -330,7 +340,7 @@ def obligations(targets, tier):
                 describe="ACMRequestHandlers == model (claims exactly class request 0x20; ACKs its data stage; zero-length status), all 2^12 input words"))
         elif t.kind == "hmux":
             obs.append(tie.rmon(
-                "ob_hmux", t, mon="hmux_mon", m0="0", alpha_bits=13, fuel=10,
+                "ob_hmux", t, mon=f"(hmux_mon {'true' if STRICT_OUT_STALL else 'false'})", m0="0", alpha_bits=13, fuel=10,
                 describe="request-handler composition of USBSerialDevice (ACMRequestHandlers + StallOnlyRequestHandler(vendor|reserved) + the "
                          "multiplexer's fallback): SET_LINE_CODING data ACKed / status zero-length / never STALLed; every other class request and every "
                          "vendor / reserved request STALLed at every opportunity (IN data, OUT data, status); all 2^13 input words"))
